@@ -157,6 +157,10 @@ class SubsetGroup(HubListener):
         for s in list(self.subsets):
             if s.data is data:
                 self.subsets.remove(s)
+                # also detach the subset from the dataset, otherwise the
+                # dataset would end up with two subsets for this group if
+                # it is added to the collection again
+                s.delete()
 
     def register_to_hub(self, hub):
 
